@@ -3,7 +3,7 @@ from __future__ import annotations
 
 import ast
 
-from ..model import AnalysisError, norm, walk_no_nested
+from ..model import AnalysisError, body_wo_doc, norm, walk_no_nested
 
 META = {
     'level': 'other',
@@ -17,7 +17,8 @@ META = {
         'evicting a cache entry cannot remove another entry\'s function and earlier results keep working; (D3) the '
         'cache key is the filter text itself (the lru_cache\'d function has the text as its only parameter) and '
         'every caller goes through it; (D4) no module-level mutable container is mutated and read back outside one critical section by the filter functions.  Also (D1): nothing that can fail runs between deriving the generated name from the counter and advancing the counter (a failed compilation consumes its id); (D5) Grid.filter keeps no filter state on the grid.  Not decided: exhaustive interleaving exploration; CPython lru_cache '
-        'internals (trusted thread-safe); the 1500-filter history as an execution.'),
+        'internals (trusted thread-safe); the 1500-filter history as an execution.'
+        ' Also (D5): Grid.reindex publishes a complete id index (built aside, one assignment): threads evaluating a->b on the same grid read the index without a lock.  (D3) what _filter_function returns is the wrapper it just built or an entry stored under the filter text itself, never under a rendering of the parsed tree.'),
     'rule_text': 'obligations = reads/writes of shared module globals on the filter path x lockset, name derivation, '
                  'shared-namespace writes, cache-key facts',
     'trusted_base': ['threading.Lock gives mutual exclusion; functools.lru_cache is thread-safe and keys on its arguments; '
@@ -45,7 +46,11 @@ def _containers(ctx, m, mod, funcs, locks):
                 if isinstance(v, (ast.List, ast.Dict, ast.Set, ast.ListComp, ast.DictComp, ast.SetComp)) or (
                         isinstance(v, ast.Call) and norm(v.func) in ('list', 'dict', 'set', 'collections.deque', 'deque',
                                                                      'collections.OrderedDict', 'OrderedDict',
-                                                                     'collections.defaultdict', 'defaultdict')):
+                                                                     'collections.defaultdict', 'defaultdict',
+                                                                     'weakref.WeakValueDictionary', 'WeakValueDictionary',
+                                                                     'weakref.WeakKeyDictionary', 'WeakKeyDictionary',
+                                                                     'weakref.WeakSet', 'WeakSet', 'collections.Counter',
+                                                                     'Counter', 'collections.ChainMap', 'ChainMap')):
                     containers[name] = d
     ctx.count('module-level mutable containers', len(containers))
 
@@ -165,6 +170,46 @@ def _id_consumed(ctx, compile_fn, enclosing_with):
                '%s:%d' % (F, inc.lineno))
 
 
+def _index_publication(ctx, m):
+    """(D5) `a->b` follows a reference with grid[ref.name], i.e. through the grid's id index, which is built lazily by
+    whichever evaluation needs it first (`if not self._index: self.reindex()`).  Threads filtering the same grid read
+    self._index without a lock, so reindex() must PUBLISH a complete index: built aside and stored with one assignment.
+    An index emptied and refilled in place is visible half-built: a non-empty partial index passes the `not
+    self._index` test of the other thread and its look-up of a row not yet entered answers KeyError -> NOT_FOUND."""
+    from . import _grid
+    FG = 'hszinc/grid.py'
+    try:
+        meths = m.methods('grid', 'Grid')
+        gp = m.func(MOD, '_get_path')
+    except AnalysisError as e:
+        ctx.error('C13.D5', str(e))
+        return
+    follows = [n for n in ast.walk(gp) if isinstance(n, ast.Subscript) and isinstance(n.value, ast.Name)
+               and n.value.id == (gp.args.args[0].arg if gp.args.args else 'grid')]
+    if not follows:
+        ctx.ob('C13.D5', '_get_path does not look rows up through the grid: no shared index on the evaluation path', True)
+        return
+    form = _grid.reindex_form(meths)
+    fn = meths.get('reindex')
+    if fn is None:
+        ctx.error('C13.D5', 'anchor vanished: Grid.reindex')
+        return
+    if form == 'local':
+        ctx.ob('C13.D5', 'reindex() builds the id index aside and publishes it with one assignment: a thread evaluating `a->b` '
+                         'on the same grid sees no index or a complete one', True, '%s:%d' % (FG, fn.lineno))
+    elif form == 'inplace':
+        ctx.violation('C13.D5', '%s::Grid.reindex' % FG, '; '.join(norm(x).split('\n')[0] for x in body_wo_doc(fn)),
+                      'schedule (one preemption): g = a slice of a grid with rows a0, s1, e1(siteRef=@s1) -- its index is not built '
+                      'yet.  Thread A evaluates `siteRef->geoCity == "X"` on g: grid[\'s1\'] finds no index, reindex() sets '
+                      'self._index = {} and enters a0; A is preempted.  Thread B evaluates `equip and siteRef->geoCity == '
+                      '"Chicago"` on g: `not self._index` is false ({a0}), self._index[\'s1\'] raises KeyError -> NOT_FOUND, B '
+                      'returns [] where the sequential answer is [e1]',
+                      'reindex() empties self._index and refills it entry by entry: other threads filtering the same grid read the '
+                      'half-built index', file=FG, line=fn.lineno, engine='E11')
+    else:
+        ctx.error('C13.D5', 'Grid.reindex: form not recognised; cannot decide how the index is published')
+
+
 def _grid_filter_state(ctx, m):
     """(D5) Grid.filter keeps no per-grid record of "the current filter": a memo written and read back in two steps is a
     check-then-act on state shared by the threads that filter the same grid."""
@@ -183,6 +228,7 @@ def _grid_filter_state(ctx, m):
                     b = b.value
                 if isinstance(b, ast.Name) and b.id == s and not isinstance(t, ast.Name):
                     stores.append((n, t))
+    _index_publication(ctx, m)
     if not stores:
         ctx.ob('C13.D5', 'Grid.filter stores nothing on the grid: two threads filtering one grid share no filter state', True,
                'hszinc/grid.py:%d' % ff.lineno)
@@ -294,7 +340,7 @@ def run(ctx):
             while not isinstance(st, ast.stmt):
                 st = st._parent
             between = ''
-            if reads and writes and reads[0][1].lineno < writes[0][1].lineno:
+            if reads and writes and reads[0][1]._seq < writes[0][1]._seq:
                 between = ' (lines %d..%d lie between the read and the write)' % (reads[0][1].lineno, writes[0][1].lineno)
             ctx.violation('C13.D1', '%s::_filter_function' % F, norm(st),
                           'schedule: thread A reads %s = n at line %d; thread B reads n, increments, execs '
@@ -450,6 +496,53 @@ def run(ctx):
         ctx.violation('C13.D3', '%s::_filter_function' % F, 'def _filter_function(%s)' % ', '.join(params),
                       'different filters can share a cache entry', 'the cached function has parameters %s' % params,
                       file=F, line=compile_fn.lineno, engine='E11')
+    # what _filter_function hands back is the wrapper it has just built -- or, when it consults a second store of
+    # compiled filters, an entry found under the filter TEXT (not under a rendering of the parsed tree: filter_ast's
+    # repr drops quotes and parentheses, so `val == 1.0` and `val == "1.0"` render alike)
+    cparam = params[0] if params else None
+    assigns = {}
+    for a_ in walk_no_nested(compile_fn):
+        if isinstance(a_, ast.Assign):
+            for t_ in a_.targets:
+                if isinstance(t_, ast.Name):
+                    assigns.setdefault(t_.id, []).append(a_.value)
+    n_fresh = 0
+    for r_ in [x for x in walk_no_nested(compile_fn) if isinstance(x, ast.Return) and x.value is not None]:
+        vals = assigns.get(r_.value.id, []) if isinstance(r_.value, ast.Name) else [r_.value]
+        if not vals:
+            ctx.error('C13.D3', '_filter_function returns `%s`, never assigned here; cannot decide' % norm(r_.value))
+        for v_ in vals:
+            if isinstance(v_, ast.Call) and norm(v_.func) == '_FnWrapper':
+                n_fresh += 1
+                continue
+            key = None
+            if isinstance(v_, ast.Call) and isinstance(v_.func, ast.Attribute) and v_.func.attr in ('get', 'pop', 'setdefault') and v_.args:
+                key = v_.args[0]
+            elif isinstance(v_, ast.Subscript):
+                key = v_.slice
+            if key is None:
+                ctx.error('C13.D3', '_filter_function can return `%s`; cannot decide whether that is this filter\'s function' % norm(v_)[:60])
+                continue
+            kt = norm(key)
+            # plain aliases of the parameter
+            al = {cparam}
+            for n_, vs_ in assigns.items():
+                if any(isinstance(x, ast.Name) and x.id in al for x in vs_):
+                    al.add(n_)
+            if kt in al:
+                ctx.ob('C13.D3', 'a stored wrapper is looked up under the filter text itself', True, '%s:%d' % (F, r_.lineno))
+            elif isinstance(key, ast.Call) and norm(key.func) in ('repr', 'str', 'hash', 'len', 'id') \
+                    or any(tok in kt for tok in ('.strip(', '.lower(', '.upper(', '.split(', '.replace(', '.casefold(', '[:', ':]')):
+                ctx.violation('C13.D3', '%s::_filter_function' % F, norm(v_),
+                              'history: evaluate `val == 1.0`, then `val == "1.0"` (or `(a or b) and c` then `a or b and c`): both '
+                              'render to the same `%s`, so the second filter is handed the function compiled for the first and '
+                              'selects the first filter\'s rows -- until the first is evicted, when the answer flips back' % kt[:50],
+                              'a compiled filter is shared through a store keyed by `%s`, a many-to-one rendering of the filter, '
+                              'not by the filter text' % kt[:50], file=F, line=v_.lineno, engine='E11')
+            else:
+                ctx.error('C13.D3', '_filter_function returns an entry stored under `%s`; cannot decide whether the key determines '
+                                    'the filter' % kt[:60])
+    ctx.count('fresh wrappers returned by _filter_function', n_fresh)
     try:
         ff = m.func(MOD, 'filter_function')
         rets = [norm(n.value) for n in walk_no_nested(ff) if isinstance(n, ast.Return)]
